@@ -407,6 +407,16 @@ def run_reg(ctx, R, tr):
             for b, vs in length_groups(rng, L, order, ctx.quick):
                 observe1(label, pset, bodies, voc, fname, argf, vs, False, record=False,
                          suffix="|scalar<=%dbits" % R.DIG if b <= R.DIG else "|shorter-scalars")
+        if not control and scalars and voc in (EPV, EP2V, EDV, EBV):
+            # curve routines accept negative scalars and negation is one of the group-level operations the property
+            # names: k and -k of the same magnitude must give one trace.  (The exponentiation ladders are not held to
+            # this: a negative exponent denotes an additional inversion, a different public operation.)
+            pos = [(lab, v) for lab, v in scalars if v > 0 and not lab.startswith("order")][:4]
+            vs = []
+            for lab, v in pos:
+                vs += [(lab, v), ("neg:" + lab, -v)]
+            if vs:
+                observe1(label, pset, bodies, voc, fname, argf, vs, False, record=False, suffix="|negative-scalars")
         if longer and not control:
             # scalars LONGER than the group order / the field: still one trace per bit length.  `red` is the modulus a
             # routine could be tempted to reduce the scalar by first (n, p - 1, 2^m - 1): multiples of it plus a
